@@ -497,6 +497,11 @@ func (d *gnDesc) valueFor(s *gnSite, asJSON bool) (tv *gpb.TypedValue, want stri
 		}
 		want, _ = fieldTerm(fv)
 		s.rel = map[string]string{"": want}
+		if asJSON && s.kind == "leaflist" && d.rng.Intn(3) == 0 {
+			// the empty array: the leaf-list is set to "no values", whatever it held
+			s.rel = map[string]string{}
+			return &gpb.TypedValue{Value: &gpb.TypedValue_JsonIetfVal{JsonIetfVal: []byte("[]")}}, "", "json-leaflist-empty"
+		}
 		if asJSON {
 			m, err := ygot.ConstructIETFJSON(fresh.Interface().(ygot.GoStruct), &ygot.RFC7951JSONConfig{})
 			if err != nil {
@@ -1000,6 +1005,10 @@ func gnNodeStream(rng *rand.Rand, n int, tier string, out string) (*Summary, err
 						desync = true
 						if gerr != nil || len(ns) != 1 {
 							sm.finding(Finding{Signature: "setnode/key-leaf-overwrite", What: "SetNode overwrote the key leaf of an existing list entry; the entry is no longer addressable by the path that was used (map key and key leaf differ)", Input: in})
+						}
+					case !desync && label == "json-leaflist-empty" && mut == "" && !useShadow:
+						if lmPost[s.lm] != "" {
+							sm.finding(Finding{Signature: "setnode/value-not-stored", What: "leaf-list " + s.lm + " still holds " + lmPost[s.lm] + " after it was set to the empty array", Input: in})
 						}
 					case desync || isJSON:
 						desync = desync || (isJSON && post != pre) // a JSON payload may rewrite key leaves too
